@@ -116,6 +116,51 @@ PROPS.update({
     },
 })
 
+def vpure(profile, quick, thorough, **kw):
+    d = {"bin": "vh", "engine": "vpure", "profile": profile,
+         "cases": {"quick": quick, "thorough": thorough},
+         "timeout_s": {"quick": 600, "thorough": 3000}, "sample_keys": [profile]}
+    d.update(kw)
+    return d
+
+
+VPURE_ASSUME = [
+    "runtime monitoring of the real functions on generated inputs; nothing is claimed beyond the inputs observed",
+    "inputs are gherkin struct literals (and generated .feature files where the parser is in the loop)",
+]
+
+PROPS.update({
+    "C15": {
+        "engine_name": "vpure",
+        "workloads": [vpure("c15", 30000, 600000)],
+        "rule": "random features (tags on feature / rule / scenario) x optional --name regex x optional random tag AST (depth<=3) x closure, options given as struct fields or through Opts::try_parse_from argv; the features a recording Runner receives from Cucumber::custom(..).filter_run are compared (==) with the input filtered by an independent evaluator; TagOperation::eval is compared with a recursive evaluator on 6 random ASTs (depth<=4) x tag sets per case; non-trivial = the filter keeps some and drops some scenarios; distinct by (regex, AST, argv?, kept, dropped)",
+        "floor": {"quick": 1000, "thorough": 5000},
+        "assumptions": VPURE_ASSUME + ["tag expressions given through argv are rendered fully parenthesized: precedence of the gherkin crate's tagexpr parser is trusted, not tested"],
+    },
+    "C16": {
+        "engine_name": "vpure",
+        "workloads": [vpure("c16", 30000, 600000)],
+        "rule": "3/4: gherkin::Feature literals with outlines (top level and in rules, 1-3 Examples tables, tagged / header-only / missing tables, adjacent, repeated, unclosed and unknown placeholders in name, step text, doc string and table cells, values with < > $ \\ ( * and non-ASCII) through Feature::expand_examples, compared with the oracle's own single-pass expansion; 1/4: generated .feature files through parser::Basic (positions pairwise distinct, tags order, substitution, unknown placeholder -> one ExampleExpansion error); non-trivial = >=2 data rows and a placeholder outside the step text; distinct by input",
+        "floor": {"quick": 1000, "thorough": 5000},
+        "assumptions": VPURE_ASSUME + ["column names are unique per table (duplicate columns are outside the statement)", "for files the gherkin parser is trusted to read the generated text as written"],
+    },
+    "C17": {
+        "engine_name": "vpure",
+        "workloads": [vpure("c17", 20000, 400000)],
+        "rule": "1-12 definitions with unique (keyword, regex, location) from a pool with nested / optional / named / multi-byte / empty groups x a step text x keyword; Collection::find on 6 registration orders x 2 fresh collections (fresh RandomState each) is compared with Regex::captures over the same-keyword definitions; the selected fn pointer is invoked and must record its own index and the matches; non-trivial = >=2 definitions match, or an optional group did not participate, or only another keyword's definition matches; distinct by (text, keyword, definitions)",
+        "floor": {"quick": 500, "thorough": 3000},
+        "assumptions": VPURE_ASSUME,
+    },
+    "C18": {
+        "engine_name": "vpure",
+        "workloads": [vpure("c18", 40000, 800000), vrun("c18", 3000, 50000)],
+        "rule": "pure part: RetryOptions::parse_from_tags on random placements of the four well-formed retry tag forms on scenario / rule / feature x random tag-filter ASTs x CLI values, compared with an oracle written from the statement; end-to-end part (real runner): the Retries on each scenario's first Started event and its attempts, with values coming from tags, CLI, builder or both (builder-vs-CLI precedence, --concurrency / --fail-fast merge are observed by the C06 / C08 monitors on the same runs); non-trivial = >=2 sources (tag levels, cli retry, cli after, filter) present; distinct by their combination",
+        "floor": {"quick": 500, "thorough": 3000},
+        "assumptions": VPURE_ASSUME + ["tags that merely start with `retry` or carry malformed payloads are outside the statement and not generated"],
+    },
+})
+
+
 def _c14_post(merged_all, tier, seed, work):
     import os
     import c14
@@ -142,6 +187,8 @@ PROPS["C14"] = {
 NOT_APPLICABLE = {}
 
 ENGINES = [
+    {"name": "vpure", "path": "harness/vh (src/pure.rs)", "serves_properties": ["C15", "C16", "C17", "C18"],
+     "kind_free_text": "reference-model monitors: the real function is called on seeded inputs and compared with a small oracle written from the statement"},
     {"name": "vstream", "path": "harness/vh (src/synth.rs, src/recw.rs, src/oracles_stream.rs)",
      "serves_properties": ["C11", "C12", "C13", "C14"],
      "kind_free_text": "synthetic + recorded event streams pushed through the real writers into recording writers; per-call prefix oracles (Normalize), independent fold (Summarize), token-exact transparency checks (combinators)"},
